@@ -4,7 +4,7 @@ from vverif.core import Result, HarnessError
 
 LEVEL = 'exploration'
 RULE = ('CharacterSet: every range [lo,hi] (32 896 ranges; ctor, addRange, complement) and every ordered pair of a family of '
-        '27 (quick) / 82 (thorough) sets (empty, full, singletons at 0/1/127/128/255, ranges, string- and list-built sets, 10 '
+        '26 (quick) / 81 (thorough) sets (empty, full, singletons at 0/1/127/128/255, ranges, string- and list-built sets, 10 '
         'named sets) under +, -, +=, -=, complement, ==, !=, add/remove, membership of all 256 bytes compared with std::bitset<256>. '
         'Tokenizer: every string of length <= 6 (quick) / 8 (thorough) over {a,b,NUL,0xFF} x 278 calls (prefix, suffix, throwing '
         'prefix with limits {npos,0,1,2,3,100}; skipAll, skipOne, skipOneTrailing, skipAllTrailing, token over 9 sets; skip, '
